@@ -77,6 +77,9 @@ GenericAddressEventCount j2aec(const json& j) {
     jopt(j, "code", a.ae_code);
     jopt(j, "tf", a.ae_transport_flags);
     a.ip_address = unhex(j.at("ip").get<std::string>());
+    // the count member of the generic structure is an output of read_generic_aec(); as an input it is ignored (a structure obtained
+    // from the reader and buffered again carries whatever count it was read with)
+    if (j.contains("cin")) a.ae_count = j["cin"].get<uint64_t>();
     return a;
 }
 
